@@ -64,7 +64,7 @@ func genC02(g *G) {
 	// (b) mostly-valid IPv6: field count x ellipsis position x tail x zone, then single-character edits
 	fieldPool := []string{"0", "1", "a", "ff", "1234", "ffff", "0000", "12345", "g", ""}
 	tails := []string{"", "1.2.3.4", "1.2.3", "256.1.1.1", "01.2.3.4", "1.2.3.4.5"}
-	zones := []string{"", "%", "%e", "%eth0", "%%", "%e:f"}
+	zones := []string{"", "%", "%e", "%eth0", "%%", "%e:f", "%" + strings.Repeat("z", 54), "%" + strings.Repeat("z", 22), "%" + strings.Repeat("z", 300), "%a%b", "%e]"}
 	edits := []string{"", ":", ".", "%", "g", "0", "[", "]"}
 	for nf := 0; nf <= 9; nf++ {
 		for ell := -1; ell <= nf; ell++ {
